@@ -715,6 +715,63 @@ fn answer_inner(line: &str) -> String {
                 _ => "bad".to_string(),
             }
         }
+        "subeq" => {
+            // `subeq <kind> <subtag> <other>`: comparison of a subtag with an arbitrary &str, next to its text
+            let kind = a.first().copied().unwrap_or("");
+            let v = arg!(1);
+            let o = arg!(2);
+            let os = match std::str::from_utf8(&o) {
+                Ok(s) => s,
+                Err(_) => return "notutf8".to_string(),
+            };
+            match kind {
+                "lang" => match Language::from_bytes(&v) {
+                    Ok(l) => format!("ok {} txt={}", b(l == os), esc(l.as_str().as_bytes())),
+                    Err(_) => "err".to_string(),
+                },
+                "script" => match Script::from_bytes(&v) {
+                    Ok(l) => format!("ok {} txt={}", b(l == os), esc(l.as_str().as_bytes())),
+                    Err(_) => "err".to_string(),
+                },
+                "region" => match Region::from_bytes(&v) {
+                    Ok(l) => format!("ok {} txt={}", b(l == os), esc(l.as_str().as_bytes())),
+                    Err(_) => "err".to_string(),
+                },
+                "variant" => match Variant::from_bytes(&v) {
+                    Ok(l) => format!("ok {} txt={}", b(l == os && l == *os), esc(l.as_str().as_bytes())),
+                    Err(_) => "err".to_string(),
+                },
+                _ => "bad".to_string(),
+            }
+        }
+        "substr" => {
+            // `substr <kind> <text>`: the FromStr entry point of each subtag type and of ExtensionsMap
+            let kind = a.first().copied().unwrap_or("");
+            let v = arg!(1);
+            let s = match std::str::from_utf8(&v) {
+                Ok(s) => s,
+                Err(_) => return "notutf8".to_string(),
+            };
+            match kind {
+                "script" => match s.parse::<Script>() {
+                    Ok(x) => format!("ok {}", esc(x.as_str().as_bytes())),
+                    Err(e) => p_err(&e).to_string(),
+                },
+                "region" => match s.parse::<Region>() {
+                    Ok(x) => format!("ok {}", esc(x.as_str().as_bytes())),
+                    Err(e) => p_err(&e).to_string(),
+                },
+                "variant" => match s.parse::<Variant>() {
+                    Ok(x) => format!("ok {}", esc(x.as_str().as_bytes())),
+                    Err(e) => p_err(&e).to_string(),
+                },
+                "ext" => match s.parse::<ExtensionsMap>() {
+                    Ok(e) => format!("ok {};str={}", render_ext(&e), esc(e.to_string().as_bytes())),
+                    Err(e) => loc_perr(&e).to_string(),
+                },
+                _ => "bad".to_string(),
+            }
+        }
         "exttype" => {
             let n: u8 = match a.first().and_then(|s| s.parse().ok()) {
                 Some(n) => n,
